@@ -46,6 +46,20 @@ func reset() {
 	curPkg, nThreads, progs = "asm", 0, nil
 }
 
+// finding reports a monitor finding; after findingCap reports of one signature further ones are only
+// counted (the check keeps the shortest replay per signature; millions of identical findings help nobody).
+const findingCap = 400
+
+var findingCount = map[string]int{}
+
+func finding(sig, what string) {
+	findingCount[sig]++
+	lib.Stat("finding:" + sig)
+	if findingCount[sig] <= findingCap {
+		lib.Finding("C12", sig, what)
+	}
+}
+
 func pkgTag() string {
 	if curPkg == "asm" {
 		return "asm"
@@ -88,7 +102,7 @@ func curWorker() *worker {
 
 func (s *stream) enter(what string) {
 	if !atomic.CompareAndSwapInt32(&s.inCb, 0, 1) {
-		lib.Finding("C12", "pool:"+pkgTag()+":callback-overlap", fmt.Sprintf("%s entered on stream s%d while another callback of the same stream is running", what, s.sid))
+		finding("pool:"+pkgTag()+":callback-overlap", fmt.Sprintf("%s entered on stream s%d while another callback of the same stream is running", what, s.sid))
 	}
 	s.callbacks++
 }
@@ -100,7 +114,7 @@ func (s *stream) checkKey(w *worker, what string) {
 	}
 	ok := w.curKey[0] == s.pair && (w.curKey[1] == s.dir || curPkg != "asm")
 	if !ok {
-		lib.Finding("C12", "pool:"+pkgTag()+":wrong-stream", fmt.Sprintf("%s: packet of key %d%s delivered to stream s%d created for key %d%s",
+		finding("pool:"+pkgTag()+":wrong-stream", fmt.Sprintf("%s: packet of key %d%s delivered to stream s%d created for key %d%s",
 			what, w.curKey[0], dirName(w.curKey[1]), s.sid, s.pair, dirName(s.dir)))
 	}
 }
@@ -160,7 +174,6 @@ func (s reasmStream) ReassemblyComplete(ac reassembly.AssemblerContext) bool {
 }
 
 type factory struct{ rec *recorder }
-
 
 func (f *factory) mk(netFlow gopacket.Flow) *stream {
 	src := netFlow.Src().Raw()
@@ -341,14 +354,14 @@ func runSchedule(sched []int) string {
 			} else if w.panMsg == "why?" {
 				sig = "pool:asm:why-panic"
 			}
-			lib.Finding("C12", sig, fmt.Sprintf("assembler goroutine %d panicked: %s (%s)", w.id, w.panMsg, w.panSite))
+			finding(sig, fmt.Sprintf("assembler goroutine %d panicked: %s (%s)", w.id, w.panMsg, w.panSite))
 			lib.Stat("outcome:panic")
 		}
 	}
 	if c.blocked {
-		lib.Finding("C12", "pool:"+pkgTag()+":blocked", "a released goroutine did not reach its next scheduling point (lock held that the controller believed free)")
+		finding("pool:"+pkgTag()+":blocked", "a released goroutine did not reach its next scheduling point (lock held that the controller believed free)")
 	} else if stuck {
-		lib.Finding("C12", "pool:"+pkgTag()+":deadlock", "no goroutine can move but some have not finished")
+		finding("pool:"+pkgTag()+":deadlock", "no goroutine can move but some have not finished")
 		lib.Stat("outcome:deadlock")
 	}
 	c.killAll()
@@ -372,23 +385,23 @@ func runSchedule(sched []int) string {
 		case r := <-done:
 			mapSize = r[0]
 			if r[0] == -2 {
-				lib.Finding("C12", "pool:"+pkgTag()+":panic:closing-flush", "closing FlushAll panicked")
+				finding("pool:"+pkgTag()+":panic:closing-flush", "closing FlushAll panicked")
 			} else {
 				if r[1] != 0 {
-					lib.Finding("C12", "pool:"+pkgTag()+":not-removed", fmt.Sprintf("%d connection(s) still in the pool after FlushAll", r[1]))
+					finding("pool:"+pkgTag()+":not-removed", fmt.Sprintf("%d connection(s) still in the pool after FlushAll", r[1]))
 				} else {
 					cached = ev
 				}
 				for _, s := range rec.all {
 					if s.completes > 1 {
-						lib.Finding("C12", "pool:"+pkgTag()+":completed-twice", fmt.Sprintf("stream s%d (key %d%s) completed %d times", s.sid, s.pair, dirName(s.dir), s.completes))
+						finding("pool:"+pkgTag()+":completed-twice", fmt.Sprintf("stream s%d (key %d%s) completed %d times", s.sid, s.pair, dirName(s.dir), s.completes))
 					} else if s.completes == 0 && s.callbacks > 0 {
-						lib.Finding("C12", "pool:"+pkgTag()+":not-completed", fmt.Sprintf("stream s%d (key %d%s) received callbacks but was never completed, even by FlushAll", s.sid, s.pair, dirName(s.dir)))
+						finding("pool:"+pkgTag()+":not-completed", fmt.Sprintf("stream s%d (key %d%s) received callbacks but was never completed, even by FlushAll", s.sid, s.pair, dirName(s.dir)))
 					}
 				}
 			}
 		case <-time.After(watchdog):
-			lib.Finding("C12", "pool:"+pkgTag()+":blocked", "closing FlushAll blocks: a connection mutex was left locked")
+			finding("pool:"+pkgTag()+":blocked", "closing FlushAll blocks: a connection mutex was left locked")
 		}
 	}
 	// reply
@@ -423,7 +436,19 @@ func runSchedule(sched []int) string {
 		lib.Stat("branch:stream-dropped-by-double-check")
 		lib.Nontrivial()
 	}
-	if len(rec.all) > 0 && len(evs) > len(rec.all) {
+	// a connection was closed and a later one created (recycling), or a goroutine had to wait for a mutex
+	seenC := false
+	for _, e := range evs {
+		if e[0] == 'c' {
+			seenC = true
+		} else if e[0] == 'n' && seenC {
+			lib.Stat("branch:create-after-close")
+			lib.Nontrivial()
+			break
+		}
+	}
+	if c.waited {
+		lib.Stat("branch:waited-for-conn-mutex")
 		lib.Nontrivial()
 	}
 	return out
